@@ -6,7 +6,8 @@ package bucketteer
 // nothing here is part of the repository.
 //
 // What it does: builds signature multisets (duplicates, chosen bucket populations, empty prefixes,
-// edge prefixes), runs the real Writer (Put / Has / Seal) and the real Reader (Open = mmap, and
+// edge prefixes, crowded prefixes - 16 000, 16 001, ~16 040 and more than 32 000 signatures - next to
+// populated neighbour prefixes filled before / while / after the crowded one), runs the real Writer (Put / Has / Seal) and the real Reader (Open = mmap, and
 // NewReader over an *os.File and over a bytes.Reader), evaluates the property oracle on what they
 // answered, and prints small runs as Coq terms for YF.C05_Check.check (file bytes included).
 
@@ -410,6 +411,206 @@ func vc05DistinctPrefixes(rng *vh.Rng, n int, must ...uint16) []uint16 {
 	return out
 }
 
+// ---------- crowded buckets with populated neighbours ----------
+
+// vc05Prealloc is the initial room the current writer gives every bucket (bucketteer/write.go,
+// newPrefixToHashes: capacity 16 000); a real epoch puts about 15 000 hashes into each bucket, so
+// populations around and beyond this number are the ordinary case. The crowded runs put 16 000,
+// 16 001, ~16 040 and many more signatures under one prefix while the prefixes NEXT to it (p-2 .. p+2
+// as little-endian uint16 = neighbours in the current format's table, and the neighbours in byte order =
+// neighbours in the legacy format's sorted table) hold signatures too, some put before the crowded
+// prefix is filled, some while it is filled and some afterwards. (If the constant of the writer changes
+// these are still valid multisets; the oracle does not depend on it.)
+const vc05Prealloc = 16000
+
+type vc05Neighbour struct {
+	Off  int    // prefix = crowded prefix + Off (uint16 arithmetic); ignored when Bytewise
+	N    int    // distinct signatures
+	When string // "before", "during", "after" (relative to the Puts of the crowded prefix), "split" (half before, half after)
+	// Bytewise: the prefix that follows (Off > 0) / precedes (Off < 0) the crowded one when prefixes are ordered as byte strings
+	Bytewise bool
+}
+
+type vc05Crowd struct {
+	P          uint16
+	N          int // distinct signatures put under P
+	Dups       int // of those, how many are put a second time (at the very end)
+	Neighbours []vc05Neighbour
+}
+
+func (c vc05Crowd) neighbourPrefix(nb vc05Neighbour) uint16 {
+	if nb.Bytewise {
+		return vc05Swap(uint16(int(vc05Swap(c.P)) + nb.Off))
+	}
+	return uint16(int(c.P) + nb.Off)
+}
+
+// vc05CrowdPrefixes picks n crowded prefixes whose neighbourhoods (p-3..p+3 numerically and bytewise) do not overlap.
+func vc05CrowdPrefixes(rng *vh.Rng, n int, must ...uint16) []uint16 {
+	taken := map[uint16]bool{}
+	hood := func(p uint16) []uint16 {
+		var h []uint16
+		for d := -3; d <= 3; d++ {
+			h = append(h, uint16(int(p)+d), vc05Swap(uint16(int(vc05Swap(p))+d)))
+		}
+		return h
+	}
+	var out []uint16
+	try := func(p uint16) bool {
+		for _, q := range hood(p) {
+			if taken[q] {
+				return false
+			}
+		}
+		for _, q := range hood(p) {
+			taken[q] = true
+		}
+		out = append(out, p)
+		return true
+	}
+	for _, p := range must {
+		try(p)
+	}
+	for len(out) < n {
+		try(uint16(rng.U64()))
+	}
+	return out
+}
+
+// vc05CrowdedSpec: the Put sequence is [neighbours "before"] [crowded prefixes and neighbours "during", merged at
+// random] [neighbours "after"] [second Puts of some crowded signatures]. Probes: every neighbour signature, a sample
+// of the crowded ones, absent signatures under every touched prefix and under the prefixes around them.
+func vc05CrowdedSpec(rng *vh.Rng, name string, crowds []vc05Crowd) *vc05Spec {
+	spec := &vc05Spec{Name: name, Kind: "crowded-buckets-with-neighbours", MetaOK: true}
+	var before, during, after, dups, small [][64]byte
+	touched := map[uint16]bool{}
+	var touchedList []uint16
+	touch := func(p uint16) {
+		if !touched[p] {
+			touched[p] = true
+			touchedList = append(touchedList, p)
+		}
+	}
+	for _, c := range crowds {
+		touch(c.P)
+		own := make([][64]byte, c.N)
+		for i := range own {
+			own[i] = vc05SigRandom(rng, c.P)
+		}
+		during = append(during, own...)
+		for i := 0; i < c.Dups && i < len(own); i++ {
+			dups = append(dups, own[rng.Intn(len(own))])
+		}
+		for i := 0; i < 60 && i < len(own); i++ {
+			spec.Probes = append(spec.Probes, own[rng.Intn(len(own))])
+		}
+		for _, nb := range c.Neighbours {
+			p := c.neighbourPrefix(nb)
+			touch(p)
+			for i := 0; i < nb.N; i++ {
+				s := vc05Sig(rng, p)
+				small = append(small, s)
+				when := nb.When
+				if when == "split" {
+					when = "before"
+					if i >= nb.N/2 {
+						when = "after"
+					}
+				}
+				switch when {
+				case "before":
+					before = append(before, s)
+				case "after":
+					after = append(after, s)
+				default:
+					during = append(during, s)
+				}
+			}
+		}
+	}
+	shuffle := func(xs [][64]byte) [][64]byte {
+		out := make([][64]byte, len(xs))
+		for i, j := range rng.Perm(len(xs)) {
+			out[i] = xs[j]
+		}
+		return out
+	}
+	for _, part := range [][][64]byte{before, during, after, dups} {
+		spec.Sigs = append(spec.Sigs, shuffle(part)...)
+	}
+	spec.Probes = append(spec.Probes, small...)
+	for _, p := range touchedList {
+		spec.Probes = append(spec.Probes, vc05Sig(rng, p), vc05Sig(rng, p))
+		for _, d := range []int{-1, 1} {
+			if q := uint16(int(p) + d); !touched[q] {
+				spec.Probes = append(spec.Probes, vc05Sig(rng, q))
+			}
+		}
+		// the body of an added signature under the next prefix
+		if len(small) > 0 {
+			s := small[rng.Intn(len(small))]
+			binary.LittleEndian.PutUint16(s[:2], p+1)
+			spec.Probes = append(spec.Probes, s)
+		}
+	}
+	for i := 0; i < 8; i++ {
+		spec.Probes = append(spec.Probes, vc05Sig(rng, uint16(rng.U64())))
+	}
+	return spec
+}
+
+// vc05CrowdedSpecs: the crowded runs of one tier (two runs in the quick tier, so that they seal in parallel).
+func vc05CrowdedSpecs(rng *vh.Rng, ver int, thorough bool) []*vc05Spec {
+	name := func(i int) string { return fmt.Sprintf("v%d_crowded_%d", ver, i) }
+	few := func() int { return 1 + rng.Intn(6) }
+	var specs []*vc05Spec
+	{
+		ps := vc05CrowdPrefixes(rng, 3)
+		s := vc05CrowdedSpec(rng, name(0), []vc05Crowd{
+			// one more than the initial room; the next prefix was filled before, the previous one afterwards
+			{P: ps[0], N: vc05Prealloc + 1, Neighbours: []vc05Neighbour{{Off: 1, N: 3, When: "before"}, {Off: -1, N: few(), When: "after"},
+				{Off: 1, N: 2, When: "before", Bytewise: true}, {Off: -1, N: 2, When: "after", Bytewise: true}}},
+			// a little more; the next prefix is filled afterwards, the previous one before
+			{P: ps[1], N: vc05Prealloc + 30 + rng.Intn(20), Dups: 40, Neighbours: []vc05Neighbour{{Off: 1, N: 5, When: "after"}, {Off: -1, N: few(), When: "before"},
+				{Off: 2, N: few(), When: "during"}, {Off: 1, N: 2, When: "after", Bytewise: true}, {Off: -1, N: 2, When: "before", Bytewise: true}}},
+			// exactly the initial room
+			{P: ps[2], N: vc05Prealloc, Neighbours: []vc05Neighbour{{Off: 1, N: few(), When: "split"}, {Off: -1, N: few(), When: "split"}}},
+		})
+		s.Meta, s.MetaOK = vc05Meta(rng, ver, 1)
+		specs = append(specs, s)
+	}
+	{
+		big := 2*vc05Prealloc + 500 + rng.Intn(1000)
+		if thorough {
+			big = 4*vc05Prealloc + 500 + rng.Intn(6000)
+		}
+		ps := vc05CrowdPrefixes(rng, 2)
+		s := vc05CrowdedSpec(rng, name(1), []vc05Crowd{
+			// far beyond the initial room, between populated prefixes on both sides (the second next one as well)
+			{P: ps[0], N: big, Dups: 100, Neighbours: []vc05Neighbour{{Off: 1, N: 40 + rng.Intn(100), When: "split"}, {Off: 2, N: few(), When: "before"},
+				{Off: 3, N: few(), When: "after"}, {Off: -1, N: 20 + rng.Intn(50), When: "split"}, {Off: -2, N: few(), When: "during"},
+				{Off: 1, N: 3, When: "split", Bytewise: true}, {Off: -1, N: 3, When: "split", Bytewise: true}}},
+			// two crowded prefixes side by side, small ones around them
+			{P: ps[1], N: vc05Prealloc + 10, Neighbours: []vc05Neighbour{{Off: -1, N: few(), When: "before"}}},
+			{P: ps[1] + 1, N: vc05Prealloc + 20, Neighbours: []vc05Neighbour{{Off: 1, N: few(), When: "before"}, {Off: 2, N: few(), When: "after"}}},
+		})
+		s.Meta, s.MetaOK = vc05Meta(rng, ver, 2)
+		specs = append(specs, s)
+	}
+	if thorough {
+		// the ends of the prefix space and of each 256-prefix row of the table
+		s := vc05CrowdedSpec(rng, name(2), []vc05Crowd{
+			{P: 0xFFFE, N: vc05Prealloc + 1 + rng.Intn(100), Neighbours: []vc05Neighbour{{Off: 1, N: few(), When: "before"}, {Off: -1, N: few(), When: "after"}}},
+			{P: 0x0000, N: vc05Prealloc + 1 + rng.Intn(100), Neighbours: []vc05Neighbour{{Off: 1, N: few(), When: "after"}}},
+			{P: 0x41FF, N: vc05Prealloc + 1 + rng.Intn(100), Neighbours: []vc05Neighbour{{Off: 1, N: few(), When: "before"}, {Off: -1, N: few(), When: "before"}}},
+			{P: 0x8000, N: vc05Prealloc + 1 + rng.Intn(100), Neighbours: []vc05Neighbour{{Off: 1, N: few(), When: "after"}, {Off: -1, N: few(), When: "before"}}},
+		})
+		s.Meta, s.MetaOK = vc05Meta(rng, ver, 0)
+		specs = append(specs, s)
+	}
+	return specs
+}
+
 func vc05Meta(rng *vh.Rng, ver int, shape int) ([][2][]byte, bool) {
 	str := func(n int) []byte {
 		b := make([]byte, n)
@@ -625,6 +826,8 @@ func vc05Specs(rng *vh.Rng, ver int, thorough bool, nCoq int) []*vc05Spec {
 		s := vc05PopSpec(rng, name("skewed", 0), "skewed", ps, pops, 10, 3000)
 		specs = append(specs, s)
 	}
+	// bucket populations at and beyond the writer's initial room, next to populated prefixes
+	specs = append(specs, vc05CrowdedSpecs(rng, ver, thorough)...)
 	return specs
 }
 
@@ -835,6 +1038,14 @@ func vc05Absorb(rep *vh.Report, cases *vh.CasesFile, spec *vc05Spec, res *vc05Re
 		b := "bucket-population:" + strconv.Itoa(p)
 		if p > 17 && (p&(p-1)) != 0 && ((p+1)&p) != 0 && ((p-1)&(p-2)) != 0 {
 			b = "bucket-population:other"
+		}
+		switch {
+		case p == vc05Prealloc || p == vc05Prealloc+1:
+			b = "bucket-population:" + strconv.Itoa(p)
+		case p > vc05Prealloc+1 && p <= vc05Prealloc+100:
+			b = fmt.Sprintf("bucket-population:%d..%d", vc05Prealloc+2, vc05Prealloc+100)
+		case p > vc05Prealloc+100:
+			b = fmt.Sprintf("bucket-population:more-than-%d", vc05Prealloc+100)
 		}
 		rep.Count(b)
 	}
